@@ -295,10 +295,20 @@ func init() {
 					case 0:
 						rd := &simio.ChunkedReader{Data: prefix, Sizes: chunkSizes(st.A[1] + uint64(k)), ErrAt: -1}
 						_, derr = dst.ReadFrom(rd)
-					case 1:
-						_, derr = dst.FromBuffer(scratchReg.Place(prefix))
-					case 2:
-						_, derr = dst.FromUnsafeBytes(scratchReg.Place(prefix))
+					case 1, 2:
+						// two ways of handing over k bytes: flush against the guard page (an over-read
+						// faults), or as the first k bytes of a longer readable buffer whose spare
+						// capacity still holds the rest of the stream (an over-read "succeeds")
+						buf := scratchReg.Place(prefix)
+						if (st.A[1]>>8)&1 == 1 {
+							buf = scratchReg.Place(data)[:k]
+							w.probe("prefix-with-spare-capacity")
+						}
+						if e == 1 {
+							_, derr = dst.FromBuffer(buf)
+						} else {
+							_, derr = dst.FromUnsafeBytes(buf)
+						}
 					case 3:
 						derr = dst.UnmarshalBinary(prefix)
 					default:
